@@ -246,6 +246,26 @@ func c16Case(c *core.Ctx, idx int) {
 				rec.Violation("json-round-trip", fmt.Sprintf("[%s] JSON-model value does not round-trip at top level\n  value %s\n  got   %s\n  bytes %s", name, showJSON(top), showJSON(got), hexHead(data)), nil)
 				return
 			}
+			// the decoded value is the caller's: writing into every container of it, the empty ones
+			// included, leaves a later decode of the same bytes as it was
+			if n := c16Scribble(got, 0); n > 0 {
+				var againM map[string]any
+				var againA []any
+				var again any
+				if k == 0 {
+					err, pn = unmarshal(p, data, &againM)
+					again = againM
+				} else {
+					err, pn = unmarshal(p, data, &againA)
+					again = againA
+				}
+				rec.Eval(1)
+				if err != nil || pn != "" || !model.JSONEqual(top, again) {
+					rec.Violation("json-round-trip", fmt.Sprintf("[%s] after the caller wrote into the %d containers of a decoded value, a fresh decode of the same bytes differs from the encoded value (%v %s)\n  value %s\n  got   %s\n  bytes %s", name, n, err, trunc1(pn), showJSON(top), showJSON(again), hexHead(data)), nil)
+					return
+				}
+				rec.Count("decoded_containers_written_to", n)
+			}
 			// decode again into the target of the previous iteration (non-nil, other shape)
 			if k == 0 && len(data) > 0 && reuseM != nil {
 				// a map target is merged by key: keys of the data take the data's value
@@ -353,6 +373,32 @@ func c16Case(c *core.Ctx, idx int) {
 		}
 	}
 	_ = reflect.TypeOf
+}
+
+// c16Scribble writes into every map and slice below v and returns how many containers it wrote to or found empty
+func c16Scribble(v any, depth int) int {
+	n := 0
+	switch x := v.(type) {
+	case map[string]any:
+		for _, e := range x {
+			n += c16Scribble(e, depth+1)
+		}
+		if x != nil && depth > 0 {
+			x["\x00written by the caller"] = depth
+			n++
+		}
+	case []any:
+		for i, e := range x {
+			n += c16Scribble(e, depth+1)
+			if depth > 0 {
+				x[i] = "written by the caller"
+			}
+		}
+		if depth > 0 {
+			n++
+		}
+	}
+	return n
 }
 
 // normJSON replaces nil containers by empty ones (they render as [] and {})
